@@ -98,7 +98,7 @@ pub fn c02_make(kinds: &[u8], turn: u8, optional: bool) {
     #[cfg(not(kani))]
     {
         sym::note("expected_successor_fen", native::to_fen(&n));
-        sym::note("actual_successor", format!("{:?}", crate::native_util::describe(&bb)));
+        sym::note("actual_successor", crate::native_util::describe(&bb));
     }
     assert!(piece_at(&bb, s) == n.sq[s as usize] && layers_at(&bb, s) <= 1, "C02 piece placement after make differs from the rules");
     assert!(bb.turn == n.turn as u32, "C02 side to move after make");
@@ -120,7 +120,7 @@ pub fn c03_undo(kinds: &[u8], turn: u8, optional: bool) {
     bb.make(mv);
     bb.unmake(mv);
     #[cfg(not(kani))]
-    sym::note("after_make_unmake", format!("{:?}", crate::native_util::describe(&bb)));
+    sym::note("after_make_unmake", crate::native_util::describe(&bb));
     assert!(same_but_half(&bb, &s0), "C03 make/unmake does not restore placement, side, rights, e.p. target or full-move number");
     assert!(bb.halfmove_clock == s0.half, "C03 make/unmake does not restore the half-move clock");
     let _ = (z0, zp0);
